@@ -76,6 +76,10 @@ pub enum Req {
     /// per hour) shared by all threads, as vlsd's approver chain does: two of them fit one at a
     /// time only
     ApproverKeysend { h: u8 },
+    /// ValidateCommitmentTx2 for holder commitment n of channel ch through a channel handler that
+    /// negotiated protocol version 4 (HsmdInit2 / LDK-style clients): the handler validates and
+    /// then revokes the previous commitment in one request, which must stay one atomic step
+    WireValidate { ch: u8, n: u8, variant: u8 },
 }
 
 #[derive(Clone, Debug, Serialize, Deserialize)]
@@ -109,6 +113,7 @@ fn req_strat() -> impl Strategy<Value = Req> {
         1 => (0u8..2).prop_map(|k| Req::Allowlist { k }),
         2 => Just(Req::SignOnchain),
         4 => (ch(), any::<bool>()).prop_map(|(ch, phase1)| Req::CSignPay { ch, phase1 }),
+        5 => (ch(), n(), 0u8..2).prop_map(|(ch, n, variant)| Req::WireValidate { ch, n, variant }),
     ]
 }
 
@@ -273,6 +278,8 @@ struct Ctx2 {
     /// counterparty point 0 and content of commitment 0 of the stub channel
     stub_c0: Option<(PublicKey, Content)>,
     approver: vls_protocol_signer::approver::VelocityApprover<vls_protocol_signer::approver::NegativeApprover>,
+    /// channel handlers (protocol version 4) for the two channels, over the same node
+    handlers: Vec<vls_protocol_signer::handler::ChannelHandler>,
 }
 
 impl Ctx2 {
@@ -289,8 +296,35 @@ struct ChanData {
     /// CSignPay: content, counterparty commitment transaction 1 and its output witness scripts
     pay: Option<(Content, Transaction, Vec<Vec<u8>>)>,
     holder_sigs: Vec<Vec<(Content, bitcoin::secp256k1::ecdsa::Signature, Vec<bitcoin::secp256k1::ecdsa::Signature>)>>,
+    /// serialised ValidateCommitmentTx2 per (n, variant)
+    wire_validate: Vec<Vec<Vec<u8>>>,
     cp_points: Vec<PublicKey>,
     cp_secrets: Vec<SecretKey>,
+}
+
+/// ValidateCommitmentTx2 for (n, content) with the counterparty's signatures.
+fn wire_validate_msg(ch: &Chan, n: u64, c: &Content, s: &CpSigned) -> vls_protocol::msgs::Message {
+    use lightning_signer::bitcoin::sighash::EcdsaSighashType;
+    use vls_protocol::model::{self, BitcoinSignature};
+    use vls_protocol::msgs;
+    use vls_protocol::serde_bolt::Array;
+    let bsig = |s: &bitcoin::secp256k1::ecdsa::Signature, flag: EcdsaSighashType| BitcoinSignature { signature: model::Signature(s.serialize_compact()), sighash: flag as u8 };
+    let mut v = vec![];
+    // the handler reads side LOCAL as offered by the holder and REMOTE as received
+    for (list, side) in [(&c.offered, model::Htlc::LOCAL), (&c.received, model::Htlc::REMOTE)] {
+        for h in list.iter() {
+            v.push(model::Htlc { side, amount: h.sat * 1000, payment_hash: model::Sha256(phash(h.h).0), ctlv_expiry: h.cltv });
+        }
+    }
+    msgs::Message::ValidateCommitmentTx2(msgs::ValidateCommitmentTx2 {
+        commitment_number: n,
+        feerate: c.feerate,
+        to_local_value_sat: c.to_holder,
+        to_remote_value_sat: c.to_cp,
+        htlcs: Array(v),
+        signature: bsig(&s.commit_sig, EcdsaSighashType::All),
+        htlc_signatures: Array(s.htlc_sigs.iter().map(|x| bsig(x, ch.htlc_sighash_type())).collect()),
+    })
 }
 
 fn prepare(f: &Fresh) -> Ctx2 {
@@ -300,14 +334,18 @@ fn prepare(f: &Fresh) -> Ctx2 {
     for ci in 0..2 {
         let ch = &w.chans[ci];
         let mut holder_sigs = vec![];
+        let mut wire_validate = vec![];
         for n in 0..3u64 {
             let mut per_variant = vec![];
+            let mut per_variant_wire = vec![];
             for v in 0..2u8 {
                 let c = if f.chain { content_chain(ch.spec.outbound, n, v) } else { content(false, n, v) };
                 let s = ch.cp_sign_holder(&secp, n, &c, SigKind::Valid);
+                per_variant_wire.push(wire_validate_msg(ch, n, &c, &s).inner().as_vec());
                 per_variant.push((c, s.commit_sig, s.htlc_sigs));
             }
             holder_sigs.push(per_variant);
+            wire_validate.push(per_variant_wire);
         }
         let pay = if f.chain {
             None
@@ -327,11 +365,35 @@ fn prepare(f: &Fresh) -> Ctx2 {
         chans.push(ChanData {
             pay,
             holder_sigs,
+            wire_validate,
             cp_points: (0..3).map(|n| ch.cp.point(&secp, n)).collect(),
             cp_secrets: (0..3).map(|n| ch.cp.secret(n)).collect(),
         });
     }
+    // a root handler over the same node, protocol version 4 negotiated (the signer's maximum)
+    let handlers = {
+        use vls_protocol::model;
+        use vls_protocol::msgs::{self, Message};
+        use vls_protocol_signer::handler::{Handler, InitHandler, RootHandler};
+        let mut init = InitHandler::new(0, w.node.clone(), lightning_signer::prelude::Arc::new(vls_protocol_signer::approver::PositiveApprover()), 4);
+        let m = Message::HsmdInit(msgs::HsmdInit {
+            key_version: model::Bip32KeyVersion { pubkey_version: 0x0488b21e, privkey_version: 0x0488ade4 },
+            chain_params: bitcoin::blockdata::constants::genesis_block(w.cfg.network).block_hash(),
+            encryption_key: None,
+            dev_privkey: None,
+            dev_bip32_seed: None,
+            dev_channel_secrets: None,
+            dev_channel_secrets_shaseed: None,
+            hsm_wire_min_version: msgs::MIN_PROTOCOL_VERSION,
+            hsm_wire_max_version: msgs::DEFAULT_MAX_PROTOCOL_VERSION,
+        });
+        let (done, _reply) = init.handle(msgs::from_vec(m.inner().as_vec()).expect("init message")).expect("handshake");
+        assert!(done, "handshake not complete");
+        let root: RootHandler = init.into();
+        (0..2).map(|ci| root.for_new_client(ci as u64 + 1, model::PubKey(peer_id(w.chans[ci].spec.peer)), w.chans[ci].spec.dbid)).collect::<Vec<_>>()
+    };
     Ctx2 {
+        handlers,
         node: w.node.clone(),
         ids: w.chans.iter().map(|c| c.id0.clone()).collect(),
         chans,
@@ -485,6 +547,16 @@ fn exec(cx: &Ctx2, r: &Req) -> String {
             match cx.approver.handle_proposed_keysend(node, payee, phash(20 + *h), 600_000) {
                 Ok(b) => format!("ok:{}", b),
                 Err(_) => "err".into(),
+            }
+        }
+        Req::WireValidate { ch, n, variant } => {
+            use vls_protocol_signer::handler::Handler;
+            let ci = *ch as usize % 2;
+            let bytes = cx.chans[ci].wire_validate[*n as usize % 3][*variant as usize % 2].clone();
+            let msg = vls_protocol::msgs::from_vec(bytes).expect("request survives the wire");
+            match cx.handlers[ci].handle(msg) {
+                Ok(rep) => format!("ok:{}", hex::encode(rep.as_vec())),
+                Err(_) => "err".to_string(),
             }
         }
         Req::HSignClose { ch } => {
